@@ -765,3 +765,89 @@ func parseErrorInputs(part, parts int, thorough bool) [][]byte {
 	}
 	return out
 }
+
+// prettyTextInputs: unparsable inputs laid out to drive every branch and constant of the text part of
+// pretty_error.go (round 4): offending lines of 78..82 and more runes with the error at every interesting
+// distance from both ends (maxLineWidth 80, maxContextSize/2 = 37), fillers of 1-, 2-, 3-, 4-byte runes and
+// invalid UTF-8, 0..5 context rows of 0..250 runes (maxContextRows 3, rows cut at 80, top row cut off by
+// the 512-byte window), every byte value as the offending symbol in five parser states, the trailing-comma
+// branch with the comma inside / outside the window, type errors whose offset has left the window
+// (no caret), long scalars.
+func prettyTextInputs() [][]byte {
+	var out [][]byte
+	add := func(s string) { out = append(out, []byte(s)) }
+	fillers := []string{"a", "é", "€", "😀", "\xff", "a\xc3", "\xe2\x82"}
+	as := []int{0, 1, 30, 33, 34, 35, 36, 37, 38, 40, 70, 74, 75, 76, 77, 78, 120}
+	bs := []int{0, 1, 30, 36, 37, 38, 40, 43, 44, 45, 46, 80}
+	for fi, f := range fillers {
+		for _, a := range as {
+			for _, b := range bs {
+				if fi > 1 && (a+b)%3 != fi%3 { // thin out the rarer fillers
+					continue
+				}
+				add(`["` + strings.Repeat(f, a) + `", @ "` + strings.Repeat(f, b) + `"]`)
+			}
+		}
+		// the error at the very end / the very start of a long line; end of input inside a long line
+		for _, n := range []int{76, 77, 78, 79, 80, 81, 150} {
+			add(`["` + strings.Repeat(f, n))
+			add(`@"` + strings.Repeat(f, n) + `"`)
+			add(`["` + strings.Repeat(f, n) + `"` + "\n" + `@`)
+		}
+	}
+	for _, f := range []string{"r", "é", "\xff"} {
+		for nrows := 0; nrows <= 5; nrows++ {
+			for _, rl := range []int{0, 1, 74, 75, 76, 77, 78, 150, 250} {
+				var sb strings.Builder
+				sb.WriteString("[\n")
+				for k := 0; k < nrows; k++ {
+					sb.WriteString(`"` + strings.Repeat(f, rl) + `",` + "\n")
+				}
+				add(sb.String() + "@")
+				add(sb.String() + `"x" "y"`)
+				add("\n\n" + sb.String() + `{"a" 1}`)
+			}
+		}
+	}
+	// every byte value as the offending symbol, in the five states expectedToken distinguishes
+	for _, pre := range []string{"[", "{", `{"a"`, `{"a":1`, "[1", ""} {
+		for c := 0; c < 256; c++ {
+			add(pre + string([]byte{byte(c)}) + " tail")
+		}
+		for _, r := range []string{"é", "€", "😀", " ", " ", "�", "\u0085", "\xed\xa0\x80", "\xf4\x90\x80\x80", "\xc0\x80"} {
+			add(pre + r)
+		}
+	}
+	// trailing comma before } or ]: blanks between, the comma inside / outside the 512-byte window, nothing before
+	for _, close := range []string{"]", "}"} {
+		open := map[string]string{"]": "[1,", "}": `{"a":1,`}[close]
+		for _, n := range []int{0, 1, 2, 100, 505, 508, 509, 510, 511, 512, 513, 600} {
+			for _, bl := range []string{" ", "\n", "\t\r"} {
+				add(open + strings.Repeat(bl, n) + close)
+			}
+		}
+		add(close)
+		add("  " + close)
+		add(strings.Repeat(" ", 600) + close)
+		add("," + close)
+		add(" , " + close)
+		add("[" + close + close)
+	}
+	// a type error whose offset is no longer inside the window when Decode returns (no caret is drawn)
+	for _, n := range []int{300, 400, 440, 460, 470, 480, 490, 500, 505, 510, 511, 512, 513, 520, 600, 1200} {
+		x := strings.Repeat("x", n)
+		add(`{"jsonrpc":1,"method":"m","params":["` + x + `"],"id":1}`)
+		add(`{"method":{"a":[true]},` + "\n" + `"params":["` + x + `"]}`)
+		add(`{"jsonrpc":"2.0","params":["` + x + `"],"METHOD":[1,2]}`)
+		add(`"` + x + `"`)
+		add(strings.Repeat(" ", n) + `12345`)
+		add(`{"jsonrpc":false,` + strings.Repeat("\n", n) + `"id":1}`)
+	}
+	for _, v := range []string{`1`, `1.5e3`, `true`, `[]`, `{}`, `"s"`, `[1]`, `{"a":1}`} {
+		add(`{"jsonrpc":` + v + `,"method":"m","id":1}`)
+		add(`{"method":` + v + `,"jsonrpc":"2.0"}`)
+		add(`{"JsonRpc":` + v + `}`)
+		add("\n \n" + v)
+	}
+	return out
+}
